@@ -215,6 +215,7 @@ def ensure(runner=None, dtypes=("float64", "float32"), threads=(False,), only=No
     CACHE.mkdir(parents=True, exist_ok=True)
     need = {}
     all_keys = {}
+    captured = {}
     for name, opts in registry.entries():
         if only is not None and name not in only:
             continue
@@ -223,6 +224,7 @@ def ensure(runner=None, dtypes=("float64", "float32"), threads=(False,), only=No
             registry.instantiate(name, opts, np.dtype(dt).type, th)
             for ck in shim.KERNELS[n0:]:
                 all_keys[ck.ir_key] = ck.origin
+                captured[ck.ir_key] = ck
                 if not (CACHE / f"{ck.ir_key}.json").exists() and ck.ir_key not in {k for v in need.values() for k in v}:
                     need.setdefault((name, json.dumps(opts, sort_keys=True), dt, th), set()).add(ck.ir_key)
     tasks = [(n, json.loads(o), dt, th, frozenset(keys)) for (n, o, dt, th), keys in need.items()]
@@ -238,6 +240,17 @@ def ensure(runner=None, dtypes=("float64", "float32"), threads=(False,), only=No
                 if rec["status"] == "MISMATCH":
                     fresh_mismatch.append((rec["origin"], rec.get("detail")))
                     continue  # never cache a disagreement
+                (CACHE / f"{rec['ir_key']}.json").write_text(json.dumps(rec))
+    # a generator whose kernels depend on how often it was called before (hidden generation history) yields other IRs
+    # in the worker processes than here: validate the kernels captured in THIS process directly, so that the check
+    # still reaches a verdict about them
+    for k in all_keys:
+        if not (CACHE / f"{k}.json").exists():
+            rec = conform_kernel(captured[k])
+            fresh += 1
+            if rec["status"] == "MISMATCH":
+                fresh_mismatch.append((rec["origin"], rec.get("detail")))
+            else:
                 (CACHE / f"{rec['ir_key']}.json").write_text(json.dumps(rec))
     if fresh_mismatch:
         raise HarnessError(f"interpreter and generated code disagree: {fresh_mismatch[:3]}")
